@@ -208,3 +208,19 @@ def t_solver_entry_points_compare_values_between_the_compiled_modes_only():
     g = "e|arm:6R@I|g1|IKFree|0"
     cl, _, _ = _clauses([_ok(g, [1.0])], [_ok(g, [1.0])], [_ok(g, [1.0 + 2e-8], k=["FKinSpace", "Norm6"])])
     assert cl == []
+
+
+def t_failed_construction_is_charged_to_every_case_of_the_object():
+    """SP / Arm constructors call kernels: when construction raises in a checked mode only the build record exists there."""
+    b = "e|sp:std@I|*|build|-"
+    c1, c2 = "e|sp:std@I|g0|IK_top|-", "e|sp:std@I|g0|getActuatorLoc_m|3"
+    J = [_ok(b, []), _ok(c1, [1.0]), _ok(c2, [2.0])]
+    cl, st, v = _clauses(J, [_exc(b, "IndexError")], [_exc(b, "IndexError")])
+    assert cl == sorted([("index_error_under_boundscheck", "jit/boundscheck"), ("interpreter_raises", "jit/nojit")] * 3)
+    assert {x["case"]["id"] for x in v} == {b, c1, c2} and "constructing" in [x for x in v if x["case"]["id"] == c2][0]["observed"]["msg"]
+    # construction fine everywhere: nothing substituted, a genuinely missing case is still a harness error
+    try:
+        _clauses(J, [_ok(b, []), _ok(c1, [1.0])], J)
+        raise AssertionError("missing case must be a harness error")
+    except HarnessError:
+        pass
